@@ -26,12 +26,12 @@ TOL = 1e-12
 def cases(tier, seed):
     out = []
     if tier == "quick":
-        vks = [["boxed"], ["lower", "upper"], ["boxed", "free"], ["fixed", "boxed"], ["bigbox", "bigupper"], ["intbox", "intbox"]]
+        vks = [["boxed"], ["lower", "upper"], ["boxed", "free"], ["fixed", "boxed"], ["bigbox", "bigupper"], ["intbox", "intbox"], ["narrowbox", "boxed"]]
         objs = ["cubic", "rosen"]
         rowsets = [[("sphere", "ranged")], [("bilinear", "eq0"), ("affine", "upper")], [("sphere", "eqoff"), ("bilinear", "lower")], []]
         scs = [0, 1]
     else:
-        vks = [list(v) for n in (1, 2) for v in itertools.product(S.VAR_KINDS, repeat=n)] + [["bigbox", "bigupper"], ["bigbox"], ["boxed", "bigupper"], ["intbox", "intbox"], ["intbox"]]
+        vks = [list(v) for n in (1, 2) for v in itertools.product(S.VAR_KINDS, repeat=n)] + [["bigbox", "bigupper"], ["bigbox"], ["boxed", "bigupper"], ["intbox", "intbox"], ["intbox"], ["narrowbox", "boxed"], ["narrowbox"], ["free", "narrowbox"]]
         objs = ["cubic", "rosen", "exp", "qfull"]
         rowsets = [[], [("sphere", "ranged")], [("affine", "eqoff")], [("cubic", "lower")],
                    [("bilinear", "eq0"), ("affine", "upper")], [("sphere", "eqoff"), ("bilinear", "lower")],
